@@ -5,7 +5,8 @@
  *                   the CO_OBJ array is a heap block of exactly Num+1 elements (ASan red zones on both sides)
  *   cfg 1  init     dictionaries in which every entry has a counting type; CONodeInit; every counter == 1
  *   cfg 2  typed    CODictRd/Wr Byte/Word/Long on entries of width 1/2/4 x direct/referenced x plain/node-id
- *   cfg 3  buffers  CODictRdBuffer/WrBuffer on domains (and reads of strings) for every length 0..4100
+ *   cfg 3  buffers  CODictRdBuffer/WrBuffer on domains (and reads of strings) for every length 0..4100;
+ *                   sizes 1,2,3,4,5,7,8,255,256,257,300,889,4000 (thorough: 1..300, 511..513, 888..890, 3999, 4000)
  * Oracle = the property statement only: the error *code* of a refused access and the upper bits of a direct
  * entry's Data word are not compared. */
 #include <stdio.h>
@@ -44,9 +45,9 @@ static void node_init(CO_OBJ *root, uint16_t dictlen, uint8_t nodeid)
 #define DEV(i, s) ((((uint32_t)(i)) << 16) | (((uint32_t)(s)) << 8))
 static const uint32_t UNI10[] = { DEV(0x0000, 0x00), DEV(0x0000, 0x01), DEV(0x0001, 0x00), DEV(0x1000, 0x00), DEV(0x1000, 0x01),
                                   DEV(0x1000, 0xFF), DEV(0x1001, 0x00), DEV(0x7FFF, 0xFF), DEV(0x8000, 0x00), DEV(0xFFFF, 0xFF) };
-static const uint32_t UNI12[] = { DEV(0x0000, 0x00), DEV(0x0000, 0x01), DEV(0x0001, 0x00), DEV(0x1000, 0x00), DEV(0x1000, 0x01),
-                                  DEV(0x1000, 0xFF), DEV(0x1001, 0x00), DEV(0x7FFF, 0xFF), DEV(0x8000, 0x00), DEV(0xFFFE, 0xFF),
-                                  DEV(0xFFFF, 0x00), DEV(0xFFFF, 0xFF) };
+static const uint32_t UNI14[] = { DEV(0x0000, 0x00), DEV(0x0000, 0x01), DEV(0x0001, 0x00), DEV(0x1000, 0x00), DEV(0x1000, 0x01),
+                                  DEV(0x1000, 0xFF), DEV(0x1001, 0x00), DEV(0x1001, 0x01), DEV(0x7FFF, 0xFF), DEV(0x8000, 0x00),
+                                  DEV(0x8000, 0x01), DEV(0xFFFE, 0xFF), DEV(0xFFFF, 0x00), DEV(0xFFFF, 0xFF) };
 static const uint32_t *UNI; static int NUNI;
 static const uint32_t STRIDE[] = { 0x1, 0x83, 0x100 };         /* in (index:sub) units: adjacent subs / mixed / adjacent indices */
 static const int QUICK_LEN[] = { 11, 12, 13, 15, 16, 17, 31, 32, 33, 63, 64, 65, 100, 127, 128, 129, 255, 256, 257, 300 };
@@ -139,7 +140,7 @@ static void probes_strided(int len, int sv, int mv)
 
 static void run_lookup(int tier)
 {
-    UNI = tier ? UNI12 : UNI10; NUNI = tier ? 12 : 10;
+    UNI = tier ? UNI14 : UNI10; NUNI = tier ? 14 : 10;
     for (int mask = 0; mask < (1 << NUNI) && !mc_deadline_hit(); mask++)
         for (int fp = 0; fp < 3; fp++) for (int mv = 0; mv < 2; mv++) {
             dict_keys_subset(mask, fp); dict_make(mv);
@@ -157,7 +158,7 @@ static void run_lookup(int tier)
 static void replay_lookup(const int *c, int n)
 {
     if (n < 6) return;
-    UNI = mc_tier() ? UNI12 : UNI10; NUNI = mc_tier() ? 12 : 10;
+    UNI = mc_tier() ? UNI14 : UNI10; NUNI = mc_tier() ? 14 : 10;
     if (c[1] == 0) dict_keys_subset(c[2], c[3]); else dict_keys_strided(c[2], c[3]);
     dict_make(c[4]);
     lookup_case((uint32_t)c[5]);
@@ -211,7 +212,7 @@ static void init_case(int variant, int L, int fam, int failpos, int mv)
     memcpy(IRoot, tmp, sizeof(CO_OBJ) * (size_t)(IN + 1));
     memset(CNT, 0, sizeof CNT); CNT_FOREIGN = 0; CNT_BADNODE = 0; FAILPOS = -1;
     for (int i = 0; i < IN; i++) if (IRoot[i].Type == &CntType) { if (ncount == failpos) FAILPOS = i; counting[ncount++] = i; }
-    mc_log("dictionary of %d entries, %d with a counting type, DictLen=%d, init of counting entry #%d reports an error\n", IN, ncount, IN + (mv ? 5 : 1), failpos);
+    mc_log("dictionary of %d entries, %d with a counting type, DictLen=%d, initialiser reporting an error: %s%d\n", IN, ncount, IN + (mv ? 5 : 1), failpos < 0 ? "none " : "counting entry #", failpos);
     node_init(IRoot, (uint16_t)(IN + (mv ? 5 : 1)), 1);
     uint64_t h = 2;
     for (int k = 0; k < ncount; k++) {
@@ -324,7 +325,7 @@ static void typed_case(int e, uint8_t nid, uint32_t v)
         mc_case_end(h, 0, want_sample() ? smp : 0);
         return;
     }
-    const TEnt *t = &TE[e]; uint32_t m = WMASK(t->w), key = CO_DEV(t->idx, 0), off = t->nid ? nid : 0, out, raw; CO_ERR err;
+    const TEnt *t = &TE[e]; uint32_t m = WMASK(t->w), key = CO_DEV(t->idx, 0), off = t->nid ? nid : 0, out, raw, back; CO_ERR err;
     v &= m;
     /* write, stored value, read back */
     err = wr(t->w, key, v);
@@ -338,6 +339,7 @@ static void typed_case(int e, uint8_t nid, uint32_t v)
     mc_log("  read -> err %d, value %X\n", (int)err, out);
     if (err != CO_ERR_NONE) FAIL("c06-typed-roundtrip", "node id %u: %d-bit read of the %s fails with error %d", nid, t->w * 8, ent_name(t), (int)err);
     else if (out != v) FAIL("c06-typed-roundtrip", "node id %u: %s: wrote %X, read back %X", nid, ent_name(t), v, out);
+    back = out;
     h = hmix(h, out); h = hmix(h, raw);
     /* stored value given, read must add the node id */
     raw_set(t, v);
@@ -364,7 +366,7 @@ static void typed_case(int e, uint8_t nid, uint32_t v)
     }
     for (int k = 0; k < NTE; k++) if (k != e && raw_get(&TE[k]) != TE[k].init) FAIL("c06-typed-sideeffect", "access to the %s changed another entry (%04X: %X -> %X)", ent_name(t), TE[k].idx, TE[k].init, raw_get(&TE[k]));
     if (OBS.fatal) FAIL("fatal-error callback invoked", "typed access");
-    if (want_sample()) snprintf(smp, sizeof smp, "node id %u, %s: write %X stores %X, reads back %X", nid, ent_name(t), v, raw, out);
+    if (want_sample()) snprintf(smp, sizeof smp, "node id %u, %s: write %X stores %X, reads back %X", nid, ent_name(t), v, raw, back);
     mc_case_end(h, 1, want_sample() ? smp : 0);
 }
 
@@ -490,12 +492,16 @@ static void buffer_case(int mode, int S, int len)
     mc_case_end(hmix(hmix(4, (uint64_t)(got[0] + 1)), (uint64_t)(got[1] + 1) * 3 + (uint64_t)mode), exp > 0, want_sample() ? smp : 0);
 }
 
-static void run_buffers(void)
+static void run_buffers(int tier)
 {
+    static const int MORE[] = { 511, 512, 513, 888, 889, 890, 3999, 4000 };
+    int sizes[320], ns = 0;
+    if (!tier) for (int i = 0; i < NBS; i++) sizes[ns++] = BSIZES[i];
+    else { for (int s = 1; s <= 300; s++) sizes[ns++] = s; for (unsigned i = 0; i < sizeof MORE / sizeof MORE[0]; i++) sizes[ns++] = MORE[i]; }
     buffer_world();
-    for (int mode = 0; mode < 3; mode++) for (int si = 0; si < NBS && !mc_deadline_hit(); si++) for (int len = 0; len <= BMAX; len++) {
-        mc_case(3, mode, BSIZES[si], len);
-        buffer_case(mode, BSIZES[si], len);
+    for (int mode = 0; mode < 3; mode++) for (int si = 0; si < ns && !mc_deadline_hit(); si++) for (int len = 0; len <= BMAX; len++) {
+        mc_case(3, mode, sizes[si], len);
+        buffer_case(mode, sizes[si], len);
     }
 }
 
@@ -505,7 +511,7 @@ static void run_cfg(int cfg, int tier)
     if (cfg == 0) run_lookup(tier);
     else if (cfg == 1) run_init(tier);
     else if (cfg == 2) run_typed(tier);
-    else run_buffers();
+    else run_buffers(tier);
 }
 
 static void run_case(const int *c, int n)
